@@ -117,6 +117,10 @@ func c06Cases() []c06Case {
 		c06Case{"named-slot-velseif-false", map[string]string{"p.vuego": `<template include="c.vuego"><template #x>X-{{ name }}</template><b>D</b></template>`, "c.vuego": `<div>[<i v-if="nope">n</i><slot v-else-if="nope" name="x">FBX</slot><u v-else>E</u>|<slot>FB</slot>]</div>`}, d, "[E|D]"},
 		c06Case{"scoped-slot-vif-in-loop", map[string]string{"p.vuego": `<template include="c.vuego"><template #row="p">({{ p.item }})</template></template>`, "c.vuego": `<ul><li v-for="it in items"><slot v-if="it != 'b'" name="row" :item="it">FB</slot><u v-else>skip</u></li></ul>`}, map[string]any{"items": []any{"a", "b", "c"}}, "(a)skip(c)"},
 		c06Case{"slot-velse-after-empty-loop", map[string]string{"p.vuego": `<template include="c.vuego"><b>S</b></template>`, "c.vuego": `<div>[<i v-for="q in nothing">q</i><slot v-else>FB</slot>]</div>`}, d, "[S]"},
+		// content a page hands to its layout, used by the layout itself: evaluated with the layout-visible data; a <slot> inside it finds nothing
+		c06Case{"layout-direct-dynamic", map[string]string{"p.vuego": "---\nlayout: main\ntitle: T\n---\n<template #side><nav>side-{{ title }}-{{ name }}</nav></template>", "layouts/main.vuego": `<aside>[<slot name="side">FB</slot>]</aside>`}, d, "[side-T-NAME]"},
+		c06Case{"layout-direct-self-slot", map[string]string{"p.vuego": "---\nlayout: main\n---\n<template #side>a<slot name=\"side\">inner-fb</slot>b</template>", "layouts/main.vuego": `<aside>[<slot name="side">FB</slot>]</aside>`}, d, "[ainner-fbb]"},
+		c06Case{"layout-direct-unsupplied", map[string]string{"p.vuego": "---\nlayout: main\n---\n<template #other>x</template>", "layouts/main.vuego": `<aside>[<slot name="side">FB-{{ name }}</slot>]</aside>`}, d, "[FB-NAME]"},
 		// nested instance with nothing supplied keeps its own fallback although the outer instance was given content for the same slot name
 		c06Case{"nested-unsupplied-keeps-fallback", map[string]string{"p.vuego": `<template include="panel.vuego"><i>hello</i></template>`,
 			"panel.vuego": `<div><template include="badge.vuego"></template><slot>PANEL-FB</slot></div>`, "badge.vuego": `<span><slot>new</slot></span>`}, d, "newhello"},
@@ -195,6 +199,17 @@ func c06Generated() []c06Case {
 						})
 					}
 				}
+				// ... and used by the LAYOUT ITSELF: the `<slot>` elements stand in the layout file, not in a component it includes
+				out = append(out, c06Case{
+					desc: fmt.Sprintf("gen-layout-direct use%d/%s/%s", ui, ct.name, recv.expr),
+					files: map[string]string{
+						"p.vuego":            "---\nlayout: main\n---\n<template " + recv.attr + ">" + ct.src(recv.expr) + "</template>\n",
+						"layouts/main.vuego": `<article>` + u.comp + `</article>`,
+						"leaf.vuego":         `<i>/{{ label }}/</i>`,
+						"wrap.vuego":         `<q>{<slot></slot>}</q>`,
+					},
+					data: d, want: want,
+				})
 				out = append(out, c06Case{
 					desc: fmt.Sprintf("gen use%d/%s/%s", ui, ct.name, recv.expr),
 					files: map[string]string{
